@@ -44,27 +44,30 @@ Record env := {
   e_encode_ok : bool; e_write_ok : bool
 }.
 
-Inductive errk := EArgs | ERead | EGunzip | EUtf8 | EXml | ETree | ENoIds | ENoNode | EZeroNode | ETargetZero | EEncode | EWrite.
-Inductive psite := PPixmapNew | PPagePixmapNew | PLimitRect | PToIntRect | PDrawOffset | PStdoutWrite.
+Inductive errk := EArgs | ERead | EGunzip | EUtf8 | EXml | ETree | ENoIds | ENoNode | EZeroNode | ETargetZero | ETargetTooLarge | EEncode | EWrite.
+(* the only remaining unwrap that the arguments can reach: `IntRect::from_xywh(0, 0, pixmap.width(), pixmap.height()).unwrap()` in
+   trim_pixmap, for a canvas taller than i32::MAX (>= 8 GiB of pixels) *)
+Inductive psite := PLimitRect.
 Inductive outcome := Exit0 (dims : option isize) | Exit1 (e : errk) | Panic (p : psite).
 Inductive rres := ROk (s : isize) | RErr (e : errk) | RPanic (p : psite).
 
 (* `x as i32` of a finite float: truncation toward zero, saturating *)
 Definition Qtrunc (q : Q) : Z := if Qle_bool 0 q then Qfloor q else Qceiling q.
 
-(* trim_pixmap + `.unwrap_or(pixmap)`: the size of the saved pixmap, or a panic site *)
+(* trim_pixmap + `.unwrap_or(pixmap)`: the size of the saved pixmap (every `?` inside trim_pixmap keeps the untrimmed one) *)
 Definition trim (fit : FitTo) (doc canvas : isize) (c : Q * Q * Q * Q) : rres :=
   let '(x, y, w, h) := c in
   let t := fit_to_transform fit doc in
   match irect_from_xywh 0 0 (is_w canvas) (is_h canvas) with
   | None => RPanic PLimitRect
   | Some limit =>
-    (* NonZeroRect::transform with a scale-only transform, then Rect::to_int_rect (which unwraps) *)
+    (* NonZeroRect::transform with a scale-only transform, then the CHECKED integer box (fix 57970e3):
+       IntRect::from_xywh(floor x, floor y, max(1, ceil w), max(1, ceil h))? *)
     match q_to_int_rect (x * t_sx t)%Q (y * t_sy t)%Q (w * t_sx t)%Q (h * t_sy t)%Q with
-    | None => RPanic PToIntRect
+    | None => ROk canvas
     | Some ci =>
       match cli_fit_to_rect ci limit with
-      | None => ROk canvas                       (* no intersection: the untrimmed pixmap is saved (F20 fix) *)
+      | None => ROk canvas                       (* no intersection: the untrimmed pixmap is saved (fix cbe5ba7) *)
       | Some r => ROk {| is_w := iw r; is_h := ih r |}
       end
     end
@@ -81,17 +84,15 @@ Definition render_svg (a : cli_args) (e : env) (docsize : Q * Q) : rres :=
       match fit_to_size fit (to_int_size w h) with
       | None => RErr ETargetZero
       | Some size =>
-        if negb (pixmap_new_ok size) then RPanic PPixmapNew else
+        (* Pixmap::new(..).ok_or_else(|| "target size is too large")?   (fix 925640f) *)
+        if negb (pixmap_new_ok size) then RErr ETargetTooLarge else
         if a_area_page a then
           match fit_to_size fit doc with
           | None => RErr ETargetZero
           | Some psize =>
-            if negb (pixmap_new_ok psize) then RPanic PPagePixmapNew else
-            (* page_pixmap.draw_pixmap(bbox.x() as i32, bbox.y() as i32, ..): IntSize::to_int_rect(x, y) unwraps *)
-            match irect_from_xywh (sat_i32 (Qtrunc x)) (sat_i32 (Qtrunc y)) (is_w size) (is_h size) with
-            | None => RPanic PDrawOffset
-            | Some _ => ROk psize
-            end
+            if negb (pixmap_new_ok psize) then RErr ETargetTooLarge else
+            (* draw_pixmap is skipped when IntRect::from_xywh(x, y, w, h) is None (fix 71df1bd): same size either way *)
+            ROk psize
           end
         else ROk size
       end
@@ -100,7 +101,7 @@ Definition render_svg (a : cli_args) (e : env) (docsize : Q * Q) : rres :=
     match fit_to_size fit doc with
     | None => RErr ETargetZero
     | Some size =>
-      if negb (pixmap_new_ok size) then RPanic PPixmapNew else
+      if negb (pixmap_new_ok size) then RErr ETargetTooLarge else
       if a_area_drawing a then trim fit doc size (e_content e) else ROk size
     end.
 
@@ -131,7 +132,8 @@ Definition step_sem (s : pstep) (a : cli_args) (e : env) (st : pstate) : pstate 
     end
   | SEncode => if a_stdout a then (if e_encode_ok e then go else inr (Exit1 EEncode)) else go
   | SWriteStdout =>
-    if a_stdout a then (if e_write_ok e then inl {| st_written := true; st_dims := st_dims st |} else inr (Panic PStdoutWrite)) else go
+    (* write_all(..).map_err(..)?   (fix dd6e054) *)
+    if a_stdout a then (if e_write_ok e then inl {| st_written := true; st_dims := st_dims st |} else inr (Exit1 EWrite)) else go
   | SWriteFile =>
     if a_stdout a then go
     else if e_encode_ok e && e_write_ok e then inl {| st_written := true; st_dims := st_dims st |} else inr (Exit1 EWrite)
@@ -159,55 +161,17 @@ Fixpoint writes_last (steps : list pstep) : bool :=
               else writes_last r
   end.
 
-(* ---- known classes of inputs on which the binary panics (decidable predicates; DESIGN 1.5) ------------- *)
-(* K1 target-size-overflow: a computed target size whose width exceeds i32::MAX/4 (Pixmap::new(..).unwrap()) *)
-Definition too_wide (o : option isize) : bool := match o with Some s => negb (pixmap_new_ok s) | None => false end.
-Definition k_target_overflow (a : cli_args) (e : env) : bool :=
+(* ---- panics -------------------------------------------------------------------------------------------
+   The classes target-width-overflow, area-drawing-box-overflow, area-page-offset-overflow and stdout-write-panic are
+   FIXED in /repo (925640f, 57970e3, 71df1bd, dd6e054).  What remains is a resource assumption, not a defect class:
+   a canvas taller than i32::MAX rows needs at least 8 GiB of pixel memory; if the allocation succeeds,
+   --export-area-drawing reaches `IntRect::from_xywh(0, 0, w, h).unwrap()`. *)
+Definition canvas_height_fits_i32 (a : cli_args) (e : env) : bool :=
   match e_tree e with
-  | None => false
-  | Some sz =>
-    let doc := to_int_size (fst sz) (snd sz) in
-    if a_export_id a then
-      match e_node e with
-      | NodeBox x y w h => too_wide (fit_to_size (the_fit a) (to_int_size w h))
-                           || (a_area_page a && too_wide (fit_to_size (the_fit a) doc))
-      | _ => false
-      end
-    else too_wide (fit_to_size (the_fit a) doc)
-  end.
-(* K2 area-drawing-box-overflow: --export-area-drawing and the device box of the content does not fit i32 *)
-Definition k_content_overflow (a : cli_args) (e : env) : bool :=
-  match e_tree e with
-  | None => false
-  | Some sz =>
-    let doc := to_int_size (fst sz) (snd sz) in
-    let t := fit_to_transform (the_fit a) doc in
-    let '(x, y, w, h) := e_content e in
-    negb (a_export_id a) && a_area_drawing a &&
-    match q_to_int_rect (x * t_sx t)%Q (y * t_sy t)%Q (w * t_sx t)%Q (h * t_sy t)%Q with None => true | Some _ => false end
-  end.
-(* K3 area-page-offset-overflow: --export-id + --export-area-page and node offset + node pixmap size overflows i32 *)
-Definition k_offset_overflow (a : cli_args) (e : env) : bool :=
-  a_export_id a && a_area_page a &&
-  match e_node e with
-  | NodeBox x y w h =>
-    match fit_to_size (the_fit a) (to_int_size w h) with
-    | Some size => match irect_from_xywh (sat_i32 (Qtrunc x)) (sat_i32 (Qtrunc y)) (is_w size) (is_h size) with None => true | Some _ => false end
-    | None => false
-    end
-  | _ => false
-  end.
-(* K5 (I/O, outside the property's model but in the state machine): -c and the write to stdout fails *)
-Definition k_stdout_fails (a : cli_args) (e : env) : bool := a_stdout a && negb (e_write_ok e).
-(* canvases taller than i32::MAX cannot be allocated in practice (> 8 GiB per column of 4-byte pixels) *)
-Definition k_canvas_too_tall (a : cli_args) (e : env) : bool :=
-  match e_tree e with
-  | None => false
+  | None => true
   | Some sz => match fit_to_size (the_fit a) (to_int_size (fst sz) (snd sz)) with
-               | Some s => negb (is_h s <=? I32_MAX) | None => false end
+               | Some s => is_h s <=? I32_MAX | None => true end
   end.
-Definition known_panic_class (a : cli_args) (e : env) : bool :=
-  k_target_overflow a e || k_content_overflow a e || k_offset_overflow a e || k_stdout_fails a e || k_canvas_too_tall a e.
 
 (* K4 (dimension rule): -w W -h H where IntSize::scale_to picks the wrong side because of its ceil'ed comparison:
    H*w/h lies strictly between W-1 and W, and the result exceeds the requested height *)
@@ -216,6 +180,25 @@ Definition k_wh_ceil_tie (s : isize) (W H : Z) : bool :=
   Qltb (zq (W - 1)) q && Qltb q (zq W).
 
 (* ---- checkers used by the correspondence (cli-dims) ------------------------------------------------- *)
+(* ---- the unwrap ledger of main.rs (Gen/C20Cli.v c20_unwrap_sites): every `.unwrap()` / `.expect()` is one of the reviewed ones *)
+Definition has_sub (sub s : string) : bool :=
+  (fix go (n : nat) (t : string) : bool :=
+     match n with
+     | O => false
+     | S n' => String.prefix sub t || match t with EmptyString => false | String _ r => go n' r end
+     end) (S (String.length s)) s.
+Local Open Scope string_scope.
+Definition unwrap_site_ok (u : usite) : bool :=
+  (* guarded by `if !args.query_all && out_png.is_none() { return Err }` in parse_args *)
+  (String.eqb (us_fn u) "process" && has_sub "args.out_png.unwrap(" (us_text u))
+  (* Size::from_wh of validated non-zero u32 values / positive literals *)
+  || (String.eqb (us_fn u) "parse_args" && has_sub "usvg::Size::from_wh(" (us_text u))
+  (* the canvas rectangle of an existing pixmap (model: PLimitRect, see canvas_height_fits_i32) *)
+  || (String.eqb (us_fn u) "trim_pixmap" && has_sub "IntRect::from_xywh(0, 0, pixmap.width(), pixmap.height()).unwrap(" (us_text u)).
+Definition unwrap_ledger_ok : bool :=
+  forallb unwrap_site_ok c20_unwrap_sites && c20_draw_guard_ok && c20_trim_shape_ok && c20_trim_fallback_ok.
+Local Close Scope string_scope.
+
 Definition outcome_code (o : outcome) : Z := match o with Exit0 _ => 0 | Exit1 _ => 1 | Panic _ => 101 end.
 Definition outcome_dims (o : outcome) : option isize := match o with Exit0 d => d | _ => None end.
 Definition opt_isize_eqb (a b : option isize) : bool :=
